@@ -44,6 +44,13 @@ Proof.
   destruct (lp ++ [x]) eqn:E; [destruct lp; discriminate|]. reflexivity.
 Qed.
 
+Lemma symlink_fresh t : get fs (lp ++ [x]) = None -> t <> [] ->
+  symlink fs t (lp ++ [x]) = (put fs (lp ++ [x]) (Link t), Ok tt).
+Proof.
+  intros Hg Ht. unfold symlink. rewrite (resolve_fresh false Hg), Hg.
+  destruct (lp ++ [x]) eqn:E; [destruct lp; discriminate|]. destruct t; [congruence|reflexivity].
+Qed.
+
 Lemma chmod_file d pm mt perm : get fs (lp ++ [x]) = Some (File d pm mt) ->
   chmod fs (lp ++ [x]) perm = (put fs (lp ++ [x]) (File d perm mt), Ok tt).
 Proof. intros Hg. unfold chmod. now rewrite (resolve_nonlink true _ Hg eq_refl), Hg. Qed.
@@ -237,6 +244,84 @@ Proof.
     + now rewrite <- !app_assoc.
 Qed.
 
+(* for a link entry only the parents are walked *)
+Lemma lstat_walk_parents fs : forall pre done x,
+  is_dir fs = true -> rdir fs (done ++ pre) -> forallb plainb (done ++ pre) = true ->
+  lstat_walk fs done (pre ++ [x]) (length pre) = CkOk.
+Proof.
+  induction pre as [|y pre IH]; intros done x Hd Hr Hp; [reflexivity|].
+  cbn [app length lstat_walk].
+  assert (Hry : rdir fs (done ++ [y])).
+  { replace (done ++ y :: pre) with ((done ++ [y]) ++ pre) in Hr by (now rewrite <- app_assoc). eapply rdir_prefix; exact Hr. }
+  destruct (rdir_get _ _ Hry) as (pm & mt & ks & Hgy).
+  assert (Hpd : forallb plainb done = true /\ plain y = true).
+  { rewrite forallb_app in Hp. apply andb_true_iff in Hp as [H1 H2]. cbn in H2. apply andb_true_iff in H2 as [H2 _]. auto. }
+  rewrite (lstat_nonlink fs done y (rdir_prefix _ _ _ Hry) (proj1 Hpd) (proj2 Hpd) _ Hgy eq_refl). cbn [is_link].
+  apply IH; auto; now rewrite <- app_assoc.
+Qed.
+
+(* ---------- Part 3b: links that stay inside ---------- *)
+Lemma clean_join_abs R : forallb seg_ok R = true -> clean (join_abs R) = join_abs R /\ comps_of (join_abs R) = R.
+Proof.
+  intros Hs. unfold join_abs. split.
+  - rewrite clean_rooted by reflexivity. f_equal. f_equal.
+    unfold rstack. cbn [split_on]. rewrite Ascii.eqb_refl. cbn [nrun fold_left nstep is_empty orb].
+    destruct R as [|g R']; [reflexivity|].
+    rewrite split_join.
+    + change (fold_left (nstep true) ?l ?s) with (nrun true s l).
+      rewrite nrun_plain by now apply forallb_seg_ok_plain. cbn [snd]. now rewrite app_nil_r, rev_involutive.
+    + discriminate.
+    + intros x Hx. apply seg_ok_no_slash. rewrite forallb_forall in Hs. now apply Hs.
+  - unfold comps_of. cbn [split_on]. rewrite Ascii.eqb_refl. cbn [filter is_empty negb].
+    destruct R as [|g R']; [reflexivity|].
+    rewrite split_join.
+    + now apply filter_nonempty_ok.
+    + discriminate.
+    + intros x Hx. apply seg_ok_no_slash. rewrite forallb_forall in Hs. now apply Hs.
+Qed.
+
+Lemma rstack_join_abs R : forallb seg_ok R = true -> rstack (join_abs R) = rev R.
+Proof.
+  intros Hs. destruct (clean_join_abs R Hs) as [Hc Ho].
+  pose proof (rcomps_rooted (join_abs R) eq_refl) as H. unfold rcomps in H. rewrite Hc in H.
+  change (filter (fun g => negb (is_empty g)) (split_on slash (join_abs R))) with (comps_of (join_abs R)) in H.
+  rewrite Ho in H. apply (f_equal (@rev str)) in H. rewrite rev_involutive in H. now symmetry.
+Qed.
+
+Lemma dst_comps_ok dst : dst_ok dst -> forallb seg_ok (comps_of dst) = true.
+Proof. intros Hd. rewrite (dst_comps _ Hd), forallb_seg_ok_rev. exact (rstack_ok dst). Qed.
+
+(* a relative link target that, read from the directory [pre] of the link, never climbs above the
+   top of the tree: the normalisation machine started on the reversed directory never underflows *)
+Definition link_stays (pre : list str) (t : str) : bool :=
+  negb (is_rooted t) && negb (is_empty t) && Nat.eqb (fst (nrun false (0, rev pre) (split_on slash t))) 0.
+
+(* such a link passes validSymlink whatever the root is: Pack's (the source directory) and
+   Unpack's (the destination) alike *)
+Lemma valid_symlink_stays allow root pre x t :
+  dst_ok root -> forallb seg_ok (pre ++ [x]) = true -> link_stays pre t = true ->
+  valid_symlink allow root (join_abs (comps_of root ++ pre ++ [x])) t = true.
+Proof.
+  intros Hd Hs Hl. pose proof Hd as [Hr Hc]. set (R := comps_of root).
+  pose proof (dst_comps_ok root Hd) as HR. fold R in HR.
+  unfold link_stays in Hl. rewrite !andb_true_iff, !negb_true_iff in Hl. destruct Hl as [[Hnr Hne] Hst]. apply Nat.eqb_eq in Hst.
+  assert (Hall : forallb seg_ok (R ++ pre ++ [x]) = true) by (now rewrite forallb_app, HR, Hs).
+  assert (Hpar : forallb seg_ok (R ++ pre) = true).
+  { rewrite forallb_app in Hs |- *. apply andb_true_iff in Hs as [Hs _]. now rewrite HR, Hs. }
+  unfold valid_symlink. rewrite Hc.
+  replace (is_rooted (join_abs (R ++ pre ++ [x]))) with true by reflexivity.
+  rewrite Hnr.
+  unfold dir_of. rewrite (proj2 (clean_join_abs _ Hall)).
+  replace (removelast (R ++ pre ++ [x])) with (R ++ pre) by (rewrite app_assoc; symmetry; apply removelast_snoc).
+  apply orb_true_iff. left.
+  unfold within, rel_inside. fold R.
+  change (fjoin (join_abs (R ++ pre)) t) with (clean (join_abs (R ++ pre) ++ slash :: t)).
+  rewrite comps_of_clean, rcomps_rooted by reflexivity.
+  rewrite rstack_app, (rstack_join_abs _ Hpar), rev_app_distr.
+  rewrite (nrun_base _ _ _ Hst). cbn [snd]. rewrite rev_app_distr, rev_involutive.
+  now rewrite strip_prefix_self.
+Qed.
+
 Section Entries.
 Variable dst : str.
 Hypothesis Hdst : dst_ok dst.
@@ -276,6 +361,37 @@ Proof.
   rewrite (lstat_walk_fresh fs pre D x _ Hd Hr (proj1 Hpl) (proj2 Hpl) Hg).
   replace (is_dir_e e || is_sym e || is_reg e || is_typex e) with true; [reflexivity|].
   rewrite Hsym. destruct (is_dir_e e), (is_reg e); cbn in *; try reflexivity; discriminate.
+Qed.
+
+(* ... and for a link entry, whose own name is not looked at *)
+Lemma new_unpack_info_fresh_sym fs pre x e :
+  is_dir fs = true -> rdir fs (D ++ pre) -> forallb seg_ok (pre ++ [x]) = true ->
+  e_name e = entry_name (pre ++ [x]) false -> is_sym e = true ->
+  new_unpack_info fs dst e = Some (D ++ pre ++ [x]).
+Proof.
+  intros Hd Hr Hs Hn Hsym. unfold new_unpack_info. rewrite Hn.
+  assert (Hne : pre ++ [x] <> []) by (destruct pre; discriminate).
+  assert (Hfirst : exists c r, entry_name (pre ++ [x]) false = c :: r /\ Ascii.eqb c slash = false).
+  { unfold entry_name. destruct (pre ++ [x]) as [|g rest] eqn:E; [congruence|].
+    cbn in Hs. apply andb_true_iff in Hs as [Hg0 _].
+    pose proof (plain_not_empty _ (seg_ok_plain _ Hg0)) as Hgn. pose proof (seg_ok_no_slash _ Hg0) as Hgs.
+    destruct g as [|c g']; [congruence|]. exists c.
+    assert (Hc : Ascii.eqb c slash = false).
+    { destruct (Ascii.eqb_spec c slash) as [->|]; [exfalso; apply Hgs; now left|reflexivity]. }
+    destruct rest as [|s1 rest'].
+    - exists (g' ++ []). split; [reflexivity|exact Hc].
+    - exists ((g' ++ slash :: join_with slash (s1 :: rest')) ++ []). split; [reflexivity|exact Hc]. }
+  destruct Hfirst as (c & r & Hcr & Hc). rewrite Hcr, Hc. rewrite <- Hcr.
+  unfold rel_inside. rewrite (fjoin_comps dst (pre ++ [x]) false Hdst Hne Hs). fold D.
+  rewrite strip_prefix_self.
+  assert (Hlen : (if is_sym e then length (pre ++ [x]) - 1 else length (pre ++ [x])) = length pre)
+    by (rewrite Hsym, app_length; cbn; lia).
+  rewrite Hlen.
+  assert (Hpl : forallb plainb (D ++ pre) = true).
+  { apply seg_ok_plainb in Hs. rewrite forallb_app in Hs. apply andb_true_iff in Hs as [H1 _].
+    now rewrite forallb_app, D_plain, H1. }
+  rewrite (lstat_walk_parents fs pre D x Hd Hr Hpl).
+  rewrite Hsym. destruct (is_dir_e e); reflexivity.
 Qed.
 End Entries.
 
@@ -439,11 +555,40 @@ Proof.
   rewrite (put_at_dst fs0 D HD). unfold X2. unfold rel at 2 3.
   rewrite (put_put_fresh X pre x F2 _ _ _ _ Hpar Hfresh). reflexivity.
 Qed.
+
+Lemma unpack_link_entry dirs e :
+  e_name e = entry_name rel false -> e_type e = ty_sym -> link_stays pre (e_link e) = true ->
+  unpack_entry true allow (atd X) dst dirs e = (atd (put X rel (Link (e_link e))), dirs, None).
+Proof.
+  intros Hn Hty Hl. destruct fs_facts as (Hd & Hr & Hg). destruct rel_facts as (HrX & HgX & Hp & Hx).
+  assert (Hsym : is_sym e = true) by (unfold is_sym; now rewrite Hty).
+  assert (Hlne : e_link e <> []).
+  { unfold link_stays in Hl. rewrite !andb_true_iff, !negb_true_iff in Hl. destruct Hl as [[_ Hl] _].
+    destruct (e_link e); [discriminate|discriminate]. }
+  unfold unpack_entry.
+  assert (Hnn : e_name e <> []).
+  { rewrite Hn. unfold entry_name. rewrite app_nil_r. unfold rel.
+    pose proof Hsegs as Hs. destruct pre as [|p0 pr]; cbn in Hs |- *.
+    - apply andb_true_iff in Hs as [Hs _]. apply (plain_not_empty _ (seg_ok_plain _ Hs)).
+    - apply andb_true_iff in Hs as [Hs _]. pose proof (plain_not_empty _ (seg_ok_plain _ Hs)).
+      destruct p0; [congruence|]. destruct (pr ++ [x]); discriminate. }
+  destruct (e_name e) as [|n0 nr] eqn:En; [congruence|]. rewrite <- En in *.
+  rewrite (new_unpack_info_fresh_sym dst Hdst (atd X) pre x e Hd Hr Hsegs Hn Hsym).
+  fold D. rewrite removelast_rel.
+  rewrite (mkdir_all_existing (atd X) (D ++ pre) 493 Hd Hr Hp).
+  rewrite Hsym.
+  unfold D at 1. rewrite (valid_symlink_stays allow dst pre x (e_link e) Hdst Hsegs Hl). fold D.
+  replace (D ++ pre ++ [x]) with ((D ++ pre) ++ [x]) by (now rewrite <- app_assoc).
+  rewrite (symlink_fresh (atd X) (D ++ pre) x Hr Hp Hx (e_link e)) by (rewrite <- ?app_assoc; assumption).
+  replace ((D ++ pre) ++ [x]) with (D ++ rel) by (unfold rel; now rewrite <- app_assoc).
+  rewrite (put_at_dst fs0 D HD). reflexivity.
+Qed.
 End OneEntry.
 
 (* ---------- Part 6: trees of regular files and directories ---------- *)
 Inductive stree :=
 | SFile (d : str) (pm : N) (mt : option Z)
+| SLink (target : str)
 | SDir (pm : N) (mt : option Z) (ks : list (str * stree)).
 
 Definition round_ns (m : option Z) : Z := sec_to_ns (match m with Some ns => ((ns + 500000000) / 1000000000)%Z | None => 0%Z end).
@@ -451,6 +596,7 @@ Definition round_ns (m : option Z) : Z := sec_to_ns (match m with Some ns => ((n
 Fixpoint to_node (t : stree) : node :=
   match t with
   | SFile d pm mt => File d pm mt
+  | SLink l => Link l
   | SDir pm mt ks => Dir pm mt (map (fun kc => (fst kc, to_node (snd kc))) ks)
   end.
 
@@ -458,6 +604,7 @@ Fixpoint to_node (t : stree) : node :=
 Fixpoint built (t : stree) : node :=
   match t with
   | SFile d pm mt => File d pm (Some (round_ns mt))
+  | SLink l => Link l
   | SDir pm mt ks => Dir 493 None (map (fun kc => (fst kc, built (snd kc))) ks)
   end.
 
@@ -465,6 +612,7 @@ Fixpoint built (t : stree) : node :=
 Fixpoint rounded (t : stree) : node :=
   match t with
   | SFile d pm mt => File d pm (Some (round_ns mt))
+  | SLink l => Link l
   | SDir pm mt ks => Dir pm (Some (round_ns mt)) (map (fun kc => (fst kc, rounded (snd kc))) ks)
   end.
 
@@ -474,6 +622,7 @@ Definition sec_of (m : option Z) : Z := match m with Some ns => ((ns + 500000000
 Fixpoint tentries (rel : list str) (t : stree) : list entry :=
   match t with
   | SFile d pm mt => [mkEntry (entry_name rel false) ty_reg [] pm (sec_of mt) d]
+  | SLink l => [mkEntry (entry_name rel false) ty_sym l 511 0 []]
   | SDir pm mt ks =>
       mkEntry (entry_name rel true) ty_dir [] pm (sec_of mt) [] ::
       (fix go (l : list (str * stree)) : list entry :=
@@ -491,6 +640,7 @@ Proof. cbn [tentries]. f_equal. induction ks as [|kc r IH]; [reflexivity|]. cbn 
 Fixpoint tdirs (D rel : list str) (t : stree) : list (list str * entry) :=
   match t with
   | SFile _ _ _ => []
+  | SLink _ => []
   | SDir pm mt ks =>
       (D ++ rel, mkEntry (entry_name rel true) ty_dir [] pm (sec_of mt) []) ::
       (fix go (l : list (str * stree)) : list (list str * entry) :=
@@ -508,12 +658,14 @@ Proof. cbn [tdirs]. f_equal. induction ks as [|kc r IH]; [reflexivity|]. cbn [ki
 Fixpoint sheight (t : stree) : nat :=
   match t with
   | SFile _ _ _ => 0
+  | SLink _ => 0
   | SDir _ _ ks => S (fold_right (fun kc acc => Nat.max (sheight (snd kc)) acc) 0 ks)
   end.
 
 Fixpoint wf (t : stree) : Prop :=
   match t with
   | SFile _ _ _ => True
+  | SLink _ => True
   | SDir _ _ ks =>
       NoDup (map fst ks) /\
       (fix go (l : list (str * stree)) : Prop :=
@@ -529,6 +681,29 @@ Proof.
          match l with [] => True | kc :: r => seg_ok (fst kc) = true /\ wf (snd kc) /\ go r end) l <-> wf_kids l).
   { induction l as [|kc r IH]; [reflexivity|]. cbn [wf_kids]. now rewrite IH. }
   now rewrite H.
+Qed.
+
+(* every link stays inside the tree, read from the directory it sits in *)
+Fixpoint links_ok (rel : list str) (t : stree) : Prop :=
+  match t with
+  | SFile _ _ _ => True
+  | SLink l => link_stays (removelast rel) l = true
+  | SDir _ _ ks =>
+      (fix go (l : list (str * stree)) : Prop :=
+         match l with [] => True | kc :: r => links_ok (rel ++ [fst kc]) (snd kc) /\ go r end) ks
+  end.
+
+Fixpoint links_ok_kids (rel : list str) (l : list (str * stree)) : Prop :=
+  match l with [] => True | kc :: r => links_ok (rel ++ [fst kc]) (snd kc) /\ links_ok_kids rel r end.
+
+Lemma links_ok_dir rel pm mt ks : links_ok rel (SDir pm mt ks) <-> links_ok_kids rel ks.
+Proof.
+  cbn [links_ok]. induction ks as [|kc r IH]; [reflexivity|]. cbn [links_ok_kids]. now rewrite IH.
+Qed.
+
+Lemma links_ok_kids_in rel ks kc : links_ok_kids rel ks -> In kc ks -> links_ok (rel ++ [fst kc]) (snd kc).
+Proof.
+  induction ks as [|a q IH]; [intros _ []|]. cbn. intros (H1 & H2) [->|Hin]; [auto|now apply IH].
 Qed.
 
 Lemma unpack_entries_app is_root allow dst : forall es1 es2 fs dirs fs1 dirs1,
@@ -579,22 +754,31 @@ Notation atd := (at_dst fs0 (comps_of dst)).
 Lemma unpack_tree : forall h t, sheight t <= h -> wf t ->
   forall X pre x pmP mtP ks dirs,
     is_dir X = true -> get X pre = Some (Dir pmP mtP ks) -> kid x ks = None ->
-    forallb seg_ok (pre ++ [x]) = true ->
+    forallb seg_ok (pre ++ [x]) = true -> links_ok (pre ++ [x]) t ->
     unpack_entries true allow (atd X) dst dirs (tentries (pre ++ [x]) t)
     = (atd (put X (pre ++ [x]) (built t)), dirs ++ tdirs D (pre ++ [x]) t, None).
 Proof.
-  induction h as [|h IH]; intros t Hh Hwf X pre x pmP mtP ks dirs HX Hpar Hfresh Hsegs.
-  - destruct t as [d pm mt|pm mt ks']; [|cbn in Hh; lia].
-    cbn [tentries unpack_entries].
-    rewrite (unpack_file_entry allow fs0 dst Hdst Hroot0 HD X pre x pmP mtP ks HX Hpar Hfresh Hsegs dirs
-               (mkEntry (entry_name (pre ++ [x]) false) ty_reg [] pm (sec_of mt) d) eq_refl eq_refl).
-    cbn [tdirs]. now rewrite app_nil_r.
-  - destruct t as [d pm mt|pm mt ks'].
-    + cbn [tentries unpack_entries].
+  assert (Hleaf : forall t X pre x pmP mtP ks dirs, (forall pm mt ks', t <> SDir pm mt ks') ->
+            is_dir X = true -> get X pre = Some (Dir pmP mtP ks) -> kid x ks = None ->
+            forallb seg_ok (pre ++ [x]) = true -> links_ok (pre ++ [x]) t ->
+            unpack_entries true allow (atd X) dst dirs (tentries (pre ++ [x]) t)
+            = (atd (put X (pre ++ [x]) (built t)), dirs ++ tdirs D (pre ++ [x]) t, None)).
+  { intros t X pre x pmP mtP ks dirs Hnd HX Hpar Hfresh Hsegs Hlk.
+    destruct t as [d pm mt|l|pm mt ks']; [| |exfalso; now apply (Hnd pm mt ks')].
+    - cbn [tentries unpack_entries].
       rewrite (unpack_file_entry allow fs0 dst Hdst Hroot0 HD X pre x pmP mtP ks HX Hpar Hfresh Hsegs dirs
                  (mkEntry (entry_name (pre ++ [x]) false) ty_reg [] pm (sec_of mt) d) eq_refl eq_refl).
       cbn [tdirs]. now rewrite app_nil_r.
-    + apply wf_dir in Hwf as [Hnd Hwk].
+    - cbn [tentries unpack_entries]. cbn [links_ok] in Hlk. rewrite removelast_snoc in Hlk.
+      rewrite (unpack_link_entry allow fs0 dst Hdst Hroot0 HD X pre x pmP mtP ks HX Hpar Hfresh Hsegs dirs
+                 (mkEntry (entry_name (pre ++ [x]) false) ty_sym l 511 0 []) eq_refl eq_refl Hlk).
+      cbn [tdirs]. now rewrite app_nil_r. }
+  induction h as [|h IH]; intros t Hh Hwf X pre x pmP mtP ks dirs HX Hpar Hfresh Hsegs Hlk.
+  - apply (Hleaf t X pre x pmP mtP ks dirs); auto. intros pm mt ks' ->. cbn in Hh. lia.
+  - destruct t as [d pm mt|l|pm mt ks'].
+    + apply (Hleaf _ X pre x pmP mtP ks dirs); auto. discriminate.
+    + apply (Hleaf _ X pre x pmP mtP ks dirs); auto. discriminate.
+    + apply wf_dir in Hwf as [Hnd Hwk]. apply links_ok_dir in Hlk.
       set (rel := pre ++ [x]) in *.
       rewrite tentries_dir, tdirs_dir. cbn [unpack_entries].
       set (e := mkEntry (entry_name rel true) ty_dir [] pm (sec_of mt) []).
@@ -624,7 +808,8 @@ Proof.
           assert (Hsk : forallb seg_ok (rel ++ [fst kc]) = true).
           { rewrite forallb_app, Hsegs. cbn. now rewrite (proj1 Hwkc). }
           rewrite (unpack_entries_app true allow dst _ (kids_entries rel r) _ _ _ _
-                     (IH (snd kc) (sheight_kid _ _ _ _ _ Hh Hkc) (proj2 Hwkc) (put X rel V) rel (fst kc) 493%N None (map bp done) dirs0 HXc Hgc Hfr Hsk)).
+                     (IH (snd kc) (sheight_kid _ _ _ _ _ Hh Hkc) (proj2 Hwkc) (put X rel V) rel (fst kc) 493%N None (map bp done) dirs0 HXc Hgc Hfr Hsk
+                         (links_ok_kids_in rel ks' kc Hlk Hkc))).
           assert (Hput : put (put X rel V) (rel ++ [fst kc]) (built (snd kc)) = put X rel (Dir 493 None (map bp (done ++ [kc])))).
           { rewrite (put_app _ rel [fst kc] _ V Hgc).
             unfold rel at 1 2. rewrite (put_put_fresh X pre x V _ _ _ _ Hpar Hfresh). fold rel.
@@ -708,11 +893,15 @@ Lemma restore_tree : forall h t, sheight t <= h -> wf t ->
     = restore_dirs (atd (put X (pre ++ [x]) (rounded t))) more.
 Proof.
   induction h as [|h IH]; intros t Hh Hwf X pre x more HX HrX Hsegs Hg.
-  - destruct t as [d pm mt|pm mt ks']; [|cbn in Hh; lia].
-    cbn [tdirs app]. change (rounded (SFile d pm mt)) with (built (SFile d pm mt)).
-    now rewrite (put_get_same _ _ _ Hg).
-  - destruct t as [d pm mt|pm mt ks'].
+  - destruct t as [d pm mt|l|pm mt ks']; [| |cbn in Hh; lia].
     + cbn [tdirs app]. change (rounded (SFile d pm mt)) with (built (SFile d pm mt)).
+      now rewrite (put_get_same _ _ _ Hg).
+    + cbn [tdirs app]. change (rounded (SLink l)) with (built (SLink l)).
+      now rewrite (put_get_same _ _ _ Hg).
+  - destruct t as [d pm mt|l|pm mt ks'].
+    + cbn [tdirs app]. change (rounded (SFile d pm mt)) with (built (SFile d pm mt)).
+      now rewrite (put_get_same _ _ _ Hg).
+    + cbn [tdirs app]. change (rounded (SLink l)) with (built (SLink l)).
       now rewrite (put_get_same _ _ _ Hg).
     + apply wf_dir in Hwf as [Hnd Hwk].
       set (rel := pre ++ [x]) in *.
@@ -776,23 +965,23 @@ Proof.
 Qed.
 
 Lemma root_loop1 : forall l done mtc dirs0,
-  NoDup (map fst (done ++ l)) -> wf_kids l ->
+  NoDup (map fst (done ++ l)) -> wf_kids l -> links_ok_kids [] l ->
   unpack_entries true allow (atd (Dir pmD mtc (map bp done))) dst dirs0 (kids_entries [] l)
   = (atd (Dir pmD (match l with [] => mtc | _ => None end) (map bp (done ++ l))), dirs0 ++ kids_dirs D [] l, None).
 Proof.
-  induction l as [|kc r IH]; intros done mtc dirs0 Hnd Hwk.
+  induction l as [|kc r IH]; intros done mtc dirs0 Hnd Hwk Hlk.
   - cbn [kids_entries unpack_entries kids_dirs]. now rewrite !app_nil_r.
-  - cbn [kids_entries kids_dirs]. cbn in Hwk. destruct Hwk as (Hs & Hw & Hwr).
+  - cbn [kids_entries kids_dirs]. cbn in Hwk. destruct Hwk as (Hs & Hw & Hwr). cbn in Hlk. destruct Hlk as (Hl1 & Hlr).
     set (X := Dir pmD mtc (map bp done)).
     assert (Hfr : kid (fst kc) (map bp done) = None).
     { apply (kid_map_none bp (fun _ => eq_refl)). rewrite map_app in Hnd. apply NoDup_remove_2 in Hnd.
       intros Hin. apply Hnd. apply in_or_app. now left. }
     assert (Hsk : forallb seg_ok ([] ++ [fst kc]) = true) by (cbn; now rewrite Hs).
     rewrite (unpack_entries_app true allow dst _ (kids_entries [] r) _ _ _ _
-               (unpack_tree allow fs0 dst Hdst Hroot0 HD (sheight (snd kc)) (snd kc) (le_n _) Hw X [] (fst kc) pmD mtc (map bp done) dirs0 eq_refl eq_refl Hfr Hsk)).
+               (unpack_tree allow fs0 dst Hdst Hroot0 HD (sheight (snd kc)) (snd kc) (le_n _) Hw X [] (fst kc) pmD mtc (map bp done) dirs0 eq_refl eq_refl Hfr Hsk Hl1)).
     cbn [app]. unfold X. rewrite (put_child_fresh _ _ _ _ _ Hfr).
     replace (map bp done ++ [(fst kc, built (snd kc))]) with (map bp (done ++ [kc])) by (now rewrite map_app).
-    rewrite (IH (done ++ [kc]) None _ ltac:(now rewrite <- app_assoc) Hwr).
+    rewrite (IH (done ++ [kc]) None _ ltac:(now rewrite <- app_assoc) Hwr Hlr).
     rewrite <- !app_assoc. cbn [app]. destruct r; reflexivity.
 Qed.
 
@@ -822,14 +1011,14 @@ Qed.
 
 (* Unpacking the archive of a tree into an empty directory yields the tree, times rounded *)
 Theorem unpack_tree_entries mtD ks :
-  get fs0 D = Some (Dir pmD mtD []) -> NoDup (map fst ks) -> wf_kids ks ->
+  get fs0 D = Some (Dir pmD mtD []) -> NoDup (map fst ks) -> wf_kids ks -> links_ok_kids [] ks ->
   unpack true allow fs0 dst (kids_entries [] ks)
   = (put fs0 D (Dir pmD (match ks with [] => mtD | _ => None end) (map rp ks)), ROk).
 Proof.
-  intros Hg Hnd Hwk. unfold unpack.
+  intros Hg Hnd Hwk Hlk. unfold unpack.
   assert (Hfs : fs0 = atd (Dir pmD mtD (map bp []))).
   { unfold at_dst. cbn [map]. symmetry. now apply put_get_same. }
-  rewrite Hfs at 1. rewrite (root_loop1 ks [] mtD [] Hnd Hwk). cbn [app].
+  rewrite Hfs at 1. rewrite (root_loop1 ks [] mtD [] Hnd Hwk Hlk). cbn [app].
   pose proof (root_loop2 ks [] (match ks with [] => mtD | _ => None end) [] Hnd Hwk) as H2.
   cbn [map app] in H2. rewrite app_nil_r in H2. rewrite H2. reflexivity.
 Qed.
